@@ -40,7 +40,38 @@ def words(ws):
     return union(z3.Re(w) for w in ws)
 
 
-def cls_to_re(items):
+_DIGITS = None
+
+
+def digit_ranges(limit=0x2FFFF):
+    """code point ranges matched by `\\d` in a str pattern without re.ASCII: Unicode decimal digits (str.isdecimal), computed from this
+    interpreter's tables; z3's character sort ends at 0x2FFFF (no decimal digit lies beyond)"""
+    global _DIGITS
+    if _DIGITS is None:
+        out, start = [], None
+        for c in range(0x110000):
+            d = chr(c).isdecimal()
+            if d and start is None:
+                start = c
+            elif not d and start is not None:
+                out.append((start, c - 1))
+                start = None
+        _DIGITS = out
+    assert all(b <= limit for _, b in _DIGITS)
+    return _DIGITS
+
+
+def _zchr(c):
+    return z3.Unit(z3.CharFromBv(z3.BitVecVal(c, 18)))
+
+
+def _zrange(a, b):
+    if b < 0x80:
+        return z3.Range(chr(a), chr(b))
+    return z3.Range(_zchr(a), _zchr(b))
+
+
+def cls_to_re(items, ascii_only=False):
     parts = []
     neg = False
     for op, av in items:
@@ -51,7 +82,10 @@ def cls_to_re(items):
         elif op is sc.RANGE:
             parts.append(z3.Range(chr(av[0]), chr(av[1])))
         elif op is sc.CATEGORY and av is sc.CATEGORY_DIGIT:
-            parts.append(z3.Range("0", "9"))  # ASCII digits only: callers feed ASCII file names (stated)
+            if ascii_only:
+                parts.append(z3.Range("0", "9"))
+            else:  # `\\d` of a str pattern matches every Unicode decimal digit
+                parts.extend(_zrange(a, b) for a, b in digit_ranges())
         else:
             raise Unsupported(f"class item {op} {av}")
     r = union(parts)
@@ -77,6 +111,7 @@ class Conv:
         if flags & (re.IGNORECASE | re.MULTILINE):
             raise Unsupported("flags")
         self.dotall = bool(flags & re.DOTALL)
+        self.ascii_only = bool(flags & re.ASCII) or isinstance(pattern.pattern, bytes)
         tree = list(sp.parse(pattern.pattern, flags))
         # anchors are supported at the two ends of the pattern only
         self.at_begin = self.at_end = None
@@ -97,7 +132,7 @@ class Conv:
             elif op is sc.NOT_LITERAL:
                 out.append(z3.Intersect(any_char(), z3.Complement(z3.Re(chr(av)))))
             elif op is sc.IN:
-                out.append(cls_to_re(av))
+                out.append(cls_to_re(av, self.ascii_only))
             elif op is sc.ANY:
                 out.append(any_char() if self.dotall else z3.Intersect(any_char(), z3.Complement(z3.Re("\n"))))
             elif op in (sc.MAX_REPEAT, sc.MIN_REPEAT):
@@ -226,6 +261,7 @@ class BoundedMatcher:
         if flags & (re.IGNORECASE | re.MULTILINE | re.VERBOSE & 0):
             raise Unsupported("flags")
         self.dotall = bool(flags & re.DOTALL)
+        self.ascii_only = bool(flags & re.ASCII) or isinstance(pattern.pattern, bytes)
         self.tree = list(sp.parse(pattern.pattern, flags))
 
     def lit(self, ch):
@@ -242,7 +278,8 @@ class BoundedMatcher:
             elif op is sc.RANGE:
                 conds.append(z3.And(z3.UGE(x, self.lit(av[0])), z3.ULE(x, self.lit(av[1]))))
             elif op is sc.CATEGORY and av is sc.CATEGORY_DIGIT:
-                conds.append(z3.And(z3.UGE(x, self.lit(48)), z3.ULE(x, self.lit(57))))  # ASCII digits only (stated)
+                rs = [(48, 57)] if self.ascii_only else digit_ranges()
+                conds.extend(z3.And(z3.UGE(x, self.lit(a)), z3.ULE(x, self.lit(b))) for a, b in rs)
             else:
                 raise Unsupported(f"class item {op} {av}")
         r = z3.Or(*conds) if conds else z3.BoolVal(False)
